@@ -224,13 +224,389 @@ def build06(j, fns):
         return t
     if k == 'list':
         return [B(x) for x in j['xs']]
+    if k == 'lookup6':
+        return Lookup6(j['op'])
     return ic.build(j, fns)
 
 
+# ------------------------------------------------------------------ T arithmetic on target-owned containers (heap model)
+CONT6 = (list, tuple, dict, set, frozenset, bytearray)
+
+
+def enc_scalar6(v):
+    if v is None:
+        return None
+    if isinstance(v, bool):
+        return {'b': v}
+    if isinstance(v, int):
+        return {'i': v}
+    if isinstance(v, str):
+        return {'s': v}
+    if isinstance(v, float):
+        return {'f': v.hex()}
+    return {'sent': '<%s>' % type(v).__name__}
+
+
+class Enc6:
+    """heap-graph encoder (wire format of lean/Glom/Py/Json.lean): every container of exact type list / tuple /
+    dict / set / frozenset / bytearray has an address = an identity; `preload` fixes the addresses of the
+    objects a case was decoded into, `heap()` re-encodes those very objects now (a member that is a container
+    the encoder has never seen — an object created since — shows as {'sent': '<new …>'})"""
+    def __init__(self):
+        self.objs = []
+        self.ids = {}
+
+    def preload(self, objs):
+        for o in objs:
+            self.ids[id(o)] = len(self.objs)
+            self.objs.append(o)
+        return self
+
+    def known(self, v):
+        return self.ids.get(id(v)) if type(v) in CONT6 else None
+
+    def addr(self, v):
+        a = self.ids.get(id(v))
+        if a is None:
+            a = len(self.objs)
+            self.ids[id(v)] = a
+            self.objs.append(v)
+            for x in self._members(v):
+                if type(x) in CONT6:
+                    self.addr(x)
+        return a
+
+    @staticmethod
+    def _members(v):
+        if type(v) is dict:
+            out = []
+            for k, x in v.items():
+                out += [k, x]
+            return out
+        if type(v) in (set, frozenset):
+            return sorted(v, key=repr)
+        return list(v)
+
+    def val(self, v, alloc=False):
+        if type(v) in CONT6:
+            a = self.addr(v) if alloc else self.ids.get(id(v))
+            return {'r': a} if a is not None else {'sent': '<new %s>' % type(v).__name__}
+        return enc_scalar6(v)
+
+    def cell(self, v, alloc=False):
+        ev = lambda x: self.val(x, alloc)
+        if type(v) is dict:
+            return {'k': 'dict', 'c': 'dict', 'v': [[ev(k), ev(x)] for k, x in v.items()]}
+        if type(v) is list:
+            return {'k': 'list', 'c': 'list', 'v': [ev(x) for x in v]}
+        if type(v) is bytearray:
+            return {'k': 'list', 'c': 'bytearray', 'v': [{'i': int(b)} for b in v]}
+        if type(v) is tuple:
+            return {'k': 'tuple', 'c': 'tuple', 'v': [ev(x) for x in v]}
+        return {'k': 'set', 'c': type(v).__name__, 'v': [ev(x) for x in sorted(v, key=repr)]}
+
+    def heap(self, alloc=False):
+        out = []
+        i = 0
+        while i < len(self.objs):          # (alloc=True may append while encoding)
+            out.append(self.cell(self.objs[i], alloc))
+            i += 1
+        return out
+
+    def graph(self, v, depth=0):
+        """a result as far as identity shows: an object that existed by its address, a new one by structure"""
+        if depth > 30:
+            return {'sent': '<deep>'}
+        if type(v) in CONT6:
+            a = self.ids.get(id(v))
+            if a is not None and type(v) not in (tuple, frozenset):
+                return {'r': a}              # (an immutable container has no observable identity: `t + ()` is `t`,
+            g = lambda x: self.graph(x, depth + 1)   # `n * ()` is the one empty tuple — shown by structure)
+            if type(v) is dict:
+                return {'new': 'dict', 'kv': [[g(k), g(x)] for k, x in v.items()]}
+            if type(v) is bytearray:
+                return {'new': 'bytearray', 'v': [{'i': int(b)} for b in v]}
+            return {'new': type(v).__name__, 'v': [g(x) for x in self._members(v)]}
+        return enc_scalar6(v)
+
+
+def tree6(v, depth=0):
+    """a value by structure only (outcome comparisons between calls)"""
+    if depth > 30:
+        return '<deep>'
+    if type(v) is dict:
+        return {'dict': [[tree6(k, depth + 1), tree6(x, depth + 1)] for k, x in v.items()]}
+    if type(v) in (set, frozenset):
+        return {type(v).__name__: sorted((json.dumps(tree6(x, depth + 1), sort_keys=True) for x in v))}
+    if type(v) in (list, tuple):
+        return {type(v).__name__: [tree6(x, depth + 1) for x in v]}
+    if type(v) is bytearray:
+        return {'bytearray': list(v)}
+    if isinstance(v, float):
+        return {'f': v.hex()}
+    if v is None or isinstance(v, (bool, int, str)):
+        return {'v': v, 'ty': type(v).__name__}
+    return {'repr': type(v).__name__}
+
+
+def decode6(heap):
+    """heap JSON -> the objects by address (mutable containers first, so that tuples / frozensets can hold them)"""
+    objs = [None] * len(heap)
+    for a, c in enumerate(heap):
+        if c['k'] == 'dict':
+            objs[a] = {}
+        elif c['k'] == 'list':
+            objs[a] = bytearray() if c['c'] == 'bytearray' else []
+        elif c['k'] == 'set' and c['c'] == 'set':
+            objs[a] = set()
+
+    def dv(j):
+        if j is None:
+            return None
+        if 'b' in j:
+            return j['b']
+        if 'i' in j:
+            return j['i']
+        if 's' in j:
+            return j['s']
+        if 'f' in j:
+            return float.fromhex(j['f'])
+        if 'r' in j:
+            if objs[j['r']] is None:
+                imm(j['r'])
+            return objs[j['r']]
+        raise ValueError('cannot decode %r' % (j,))
+
+    def imm(a):
+        c = heap[a]
+        objs[a] = (tuple if c['k'] == 'tuple' else frozenset)(dv(x) for x in c['v'])
+    for a, c in enumerate(heap):
+        if objs[a] is None:
+            imm(a)
+    for a, c in enumerate(heap):
+        o = objs[a]
+        if c['k'] == 'dict':
+            for k, v in c['v']:
+                o[dv(k)] = dv(v)
+        elif c['k'] == 'list':
+            o.extend(dv(x) for x in c['v'])
+        elif c['k'] == 'set' and c['c'] == 'set':
+            o.update(dv(x) for x in c['v'])
+    return objs, dv
+
+
+T_OPS = {'+': lambda t, a: t + a, '-': lambda t, a: t - a, '*': lambda t, a: t * a, '#': lambda t, a: t // a,
+         '/': lambda t, a: t / a, '%': lambda t, a: t % a, ':': lambda t, a: t ** a, '&': lambda t, a: t & a,
+         '|': lambda t, a: t | a, '^': lambda t, a: t ^ a, '~': lambda t, a: ~t, '_': lambda t, a: -t,
+         '[': lambda t, a: t[a]}
+BIN_OPS = ['+', '-', '*', '#', '/', '%', ':', '&', '|', '^']
+
+
+def build_sp(j, dv):
+    """Sp JSON (see lean/Glom/Driver/C06.lean) -> the real spec object"""
+    import glom
+    if 'lit' in j:
+        return dv(j['lit'])
+    if 't' in j:
+        t = glom.T
+        for op, arg in j['t']:
+            t = T_OPS[op](t, build_sp(arg, dv))
+        return t
+    if 'seq' in j:
+        return {'list': list, 'tuple': tuple, 'set': set, 'fset': frozenset}[j['seq']](build_sp(x, dv) for x in j['xs'])
+    if 'dict' in j:
+        return {build_sp(k, dv): build_sp(v, dv) for k, v in j['dict']}
+    if 'coalesce' in j:
+        kw = {} if j.get('default') is None else {'default': build_sp(j['default'], dv)}
+        return glom.Coalesce(*[build_sp(x, dv) for x in j['coalesce']], **kw)
+    raise ValueError('bad Sp %r' % (j,))
+
+
+def build_arith(entry):
+    a = entry['arith']
+    objs, dv = decode6(a['heap'])
+    return dv(a['target']), build_sp(a['spec'], dv), objs
+
+
+def _lit(v):
+    return {'lit': enc_scalar6(v)}
+
+
+def _path(*keys):
+    return {'t': [['[', _lit(k)] for k in keys]}
+
+
+# which right operands make `left <op> right` succeed in Python (the in-place forms exist for exactly these)
+VALID6 = {
+    'list': [('+', 'list'), ('*', 'int')],
+    'tuple': [('+', 'tuple'), ('*', 'int')],
+    'bytearray': [('+', 'bytearray'), ('*', 'int')],
+    'set': [('|', 'setlike'), ('&', 'setlike'), ('-', 'setlike'), ('^', 'setlike')],
+    'frozenset': [('|', 'setlike'), ('&', 'setlike'), ('-', 'setlike'), ('^', 'setlike')],
+    'dict': [('|', 'dict')],
+    'int': [(o, 'int') for o in BIN_OPS] + [('*', 'list'), ('*', 'tuple'), ('*', 'bytearray')],
+    'str': [('+', 'str'), ('*', 'int')],
+}
+SAME_KIND = {'list': [('+', 'list'), ('*', 'int')], 'tuple': [('+', 'tuple'), ('*', 'int')],
+             'set': VALID6['set'], 'frozenset': VALID6['set'], 'int': [(o, 'int') for o in '+-*&|^']}
+FIELD_TYPES = {'l': 'list', 'l2': 'list', 's': 'set', 's2': 'set', 'fs': 'frozenset', 'd': 'dict', 'd2': 'dict',
+               'ba': 'bytearray', 'ba2': 'bytearray', 't': 'tuple', 'n': 'int', 'm': 'int', 'z': 'int', 'st': 'str',
+               'b': 'int', 'no': 'none'}
+RIGHT_KINDS = ['int', 'str', 'none', 'float', 'list', 'tuple', 'bytearray', 'setlike', 'dict']
+
+
+def arith_target(rng):
+    """{'l': [...], 's': {...}, 'd': {...}, 'ba': bytearray, …}: every kind of container, owned by the target;
+    some of them shared (the same object under two keys / twice in `rows`)"""
+    ints = lambda n: [rng.choice([0, 1, 2, 3, 5, 7]) for _ in range(n)]
+    strs = lambda n: [rng.choice(['a', 'b', 'c', 'x']) for _ in range(n)]
+    l = ints(rng.randint(0, 3))
+    t = {'l': l, 'l2': strs(rng.randint(1, 2)) + ([[9]] if rng.random() < 0.3 else []),
+         's': set(ints(rng.randint(0, 3))), 's2': set(strs(rng.randint(1, 3))), 'fs': frozenset(ints(2)),
+         'd': dict(zip(strs(2), ints(2))), 'd2': {'k': rng.choice([1, 'v']), 'j': [4]},
+         'ba': bytearray(ints(rng.randint(0, 2))), 'ba2': bytearray(b'\x07'), 't': tuple(ints(rng.randint(0, 2))),
+         'n': rng.choice([2, 3, -1]), 'm': rng.choice([2, 0, 1]), 'z': 0, 'st': rng.choice(['ab', '']),
+         'b': rng.random() < 0.5, 'no': None}
+    r1, r2 = ints(rng.randint(1, 2)), strs(1)
+    t['rows'] = [r1, r2] + ([r1] if rng.random() < 0.5 else []) + ([l] if rng.random() < 0.3 else [])
+    t['nest'] = {'l': l if rng.random() < 0.4 else ints(2), 's': set(strs(2))}
+    return t
+
+
+def right_operand(rng, kind, own, depth=0):
+    """a right operand of the given kind: a literal (rebuilt by arg_val, or the spec's own bytearray passed
+    through), a T expression reading a container the target owns, or a nested T arithmetic expression"""
+    p = rng.random()
+    fields = {'int': ['n', 'm', 'z', 'b'], 'str': ['st'], 'none': ['no'], 'list': ['l', 'l2'], 'tuple': ['t'],
+              'bytearray': ['ba', 'ba2'], 'setlike': ['s', 's2', 'fs'], 'dict': ['d', 'd2']}.get(kind, [])
+    if fields and p < 0.4:
+        return _path(rng.choice(fields))                           # the target's own object as right operand
+    if depth == 0 and p < 0.5 and kind in ('list', 'setlike', 'int', 'tuple'):
+        f = rng.choice(fields)                                     # nested T arithmetic (of the same kind)
+        op, rk = rng.choice(SAME_KIND[FIELD_TYPES[f]])
+        return {'t': [['[', _lit(f)], [op, right_operand(rng, rk, own, 1)]]}
+    if kind == 'int':
+        return _lit(rng.choice([0, 1, 2, 3, -1, True]))
+    if kind == 'str':
+        return _lit(rng.choice(['', 'z']))
+    if kind == 'none':
+        return _lit(None)
+    if kind == 'float':
+        return _lit(rng.choice([2.5, 0.5]))
+    if kind == 'list':
+        q = rng.random()
+        if q < 0.25:
+            return {'seq': 'list', 'xs': [_path('n')]}             # a literal list holding a T
+        if q < 0.4:
+            return {'seq': 'list', 'xs': [{'seq': 'list', 'xs': [_lit(0)]}]}
+        return {'seq': 'list', 'xs': [_lit(rng.choice([0, 'end', 4])) for _ in range(rng.randint(0, 2))]}
+    if kind == 'tuple':
+        return {'seq': 'tuple', 'xs': [_lit(rng.choice([0, 'e'])) for _ in range(rng.randint(0, 2))]}
+    if kind == 'bytearray':
+        return {'lit': {'r': own(bytearray([rng.choice([1, 2, 65])] * rng.randint(0, 2)))}}
+    if kind == 'setlike':
+        return {'seq': rng.choice(['set', 'set', 'fset']),
+                'xs': [_lit(x) for x in sorted(set(rng.choice([0, 1, 2, 'a', 'b', 'q']) for _ in range(rng.randint(0, 3))), key=repr)]}
+    if kind == 'dict':
+        return {'dict': [[_lit(rng.choice(['k', 'a', 'new'])), rng.choice([_lit(1), _path('n'), {'seq': 'list', 'xs': []}])]]}
+    raise ValueError(kind)
+
+
+def arith_chain(rng, own, field=None, combo=None, root_steps=None):
+    """T[<field>] followed by 1-3 arithmetic operations; `combo` = (op, right kind) forces the first one"""
+    field = field or rng.choice(['l', 'l', 'l2', 's', 's', 's2', 'fs', 'd', 'd', 'd2', 'ba', 'ba', 'ba2', 't', 'n', 'm',
+                                 'st', 'b', 'no', 'z'])
+    steps = list(root_steps) if root_steps is not None else [['[', _lit(field)]]
+    ty = FIELD_TYPES.get(field, 'list')
+    for k in range(rng.randint(1, 3) if combo is None else 1):
+        if combo is not None:
+            op, rk = combo
+        elif ty in VALID6 and rng.random() < 0.8:
+            op, rk = rng.choice(VALID6[ty])
+        else:
+            op, rk = rng.choice(BIN_OPS), rng.choice(RIGHT_KINDS)
+        if rng.random() < 0.06:
+            steps.append([rng.choice(['~', '_']), _lit(None)])
+            continue
+        steps.append([op, right_operand(rng, rk, own)])
+        if ty == 'int' and rk in ('list', 'tuple', 'bytearray'):
+            ty = rk
+        elif ty == 'int' and op in ('/', ':'):
+            ty = 'other'
+    return {'t': steps}
+
+
+def arith_entry(rng, combo=None):
+    """a target owning one container of every kind + a spec made of T arithmetic on them (bare, in a dict spec,
+    mapped over the rows by a list spec, in a tuple chain, under Coalesce).  `combo` = (field, op, right kind)
+    pins the first operation (exhaustive enumeration of the thorough tier)."""
+    target = arith_target(rng)
+    enc = Enc6()
+    tv = enc.val(target, alloc=True)
+
+    def own(obj):                       # an object the spec holds and hands through as it is
+        return enc.addr(obj)
+    chain = lambda **kw: arith_chain(rng, own, **kw)
+    p = rng.random()
+    if combo is not None:
+        first = arith_chain(rng, own, field=combo[0], combo=(combo[1], combo[2]))
+        spec = first if p < 0.6 else {'dict': [[_lit('out'), first], [_lit('again'), first]]}
+    elif p < 0.4:
+        spec = chain()
+    elif p < 0.6:
+        spec = {'dict': [[rng.choice([_lit('k%d' % i), _lit('k%d' % i), _path('st')]), chain()]
+                         for i in range(rng.randint(1, 3))]}
+    elif p < 0.75:
+        item = arith_chain(rng, own, field='l', root_steps=[])          # T + [...] / T * 2 on every row
+        spec = {'seq': 'tuple', 'xs': [_path('rows'), {'seq': 'list', 'xs': [item]}]}
+    elif p < 0.88:
+        subs = [chain() for _ in range(rng.randint(1, 2))]
+        if rng.random() < 0.5:
+            subs.insert(0, _path('missing'))
+        dflt = rng.choice([None, {'seq': 'list', 'xs': [_lit(0)]}, _path('l'), {'lit': {'r': own(bytearray(b'd'))}}])
+        spec = {'coalesce': subs, 'default': dflt}
+    else:
+        spec = {'seq': 'tuple', 'xs': [_path('nest'), arith_chain(rng, own, field=rng.choice(['l', 's']))]}
+    return {'arith': {'heap': enc.heap(alloc=True), 'target': tv, 'spec': spec}}
+
+
+def arith_combos():
+    """every operator x every kind of left operand x every kind of right operand"""
+    return [(f, op, rk) for f in ['l', 's', 'fs', 'd', 'ba', 't', 'n', 'st'] for op in BIN_OPS for rk in RIGHT_KINDS]
+
+
 # ------------------------------------------------------------------ a class hierarchy and its instances
+BUILTIN6 = {'set': set, 'frozenset': frozenset, 'range': range}
+
+
+def _builtin_abcs():
+    import collections.abc
+    return {'Set': collections.abc.Set, 'Sequence': collections.abc.Sequence}
+
+
 def _mk_classes(descs):
-    out = []
-    for d in descs:
+    """the classes of a case, in order: generated classes (instances are targets), then the ABCs they are
+    virtual subclasses of (`abc`: 'register' = A.register(K), 'hook' = A.__subclasshook__ recognises a marker
+    attribute, 'collections' = a collections.abc class), then builtin types used as targets"""
+    import abc
+    out = [None] * len(descs)
+    for i, d in enumerate(descs):
+        if d.get('abc') == 'collections':
+            out[i] = _builtin_abcs()[d['name']]
+        elif d.get('abc'):
+            ns = {'__iter__': lambda self: iter(()), '_c06_generated': True}     # an iterable ABC
+            if d['abc'] == 'hook':
+                def hook(cls, C, _m='_c06_hook_' + d['name']):
+                    if any(_m in B.__dict__ for B in C.__mro__):
+                        return True
+                    return NotImplemented
+                ns['__subclasshook__'] = classmethod(hook)
+            out[i] = abc.ABCMeta(d['name'], (), ns)
+        elif d.get('builtin'):
+            out[i] = BUILTIN6[d['builtin']]
+    for i, d in enumerate(descs):
+        if out[i] is not None:
+            continue
         bases = tuple(out[b] for b in d['bases']) or (object,)
 
         def __init__(self, _n=d['name']):
@@ -245,8 +621,20 @@ def _mk_classes(descs):
         ns = {'__init__': __init__, '__iter__': __iter__, '__repr__': __repr__, '_c06_generated': True}
         if d.get('slots'):                 # no __dict__: '*' reaches the children by iteration, not by keys
             ns['__slots__'] = ('name', 'items') if not d['bases'] else ()
-        out.append(type(d['name'], bases, ns))
+        a = d.get('abc_of')
+        if a is not None and descs[a]['abc'] == 'hook':
+            ns['_c06_hook_' + descs[a]['name']] = True
+        out[i] = type(d['name'], bases, ns)
+        if a is not None and descs[a]['abc'] == 'register':
+            out[a].register(out[i])
     return out
+
+
+def _instance(descs, klasses, i):
+    d = descs[i]
+    if d.get('builtin'):
+        return {'set': lambda: {1, 2}, 'frozenset': lambda: frozenset([1, 2]), 'range': lambda: range(1, 3)}[d['builtin']]()
+    return klasses[i]()
 
 
 def gen_classes(rng):
@@ -275,10 +663,38 @@ def gen_classes(rng):
         except TypeError:                 # no consistent MRO / instance layout for these bases
             d['bases'] = bases[:1]
         descs.append(d)
-    for d, c in zip(descs, _mk_classes(descs)):
-        d['mro'] = [x.__name__ for x in c.__mro__]
-        d['dict'] = hasattr(c(), '__dict__')          # as Python has it: the built-in `keys` handler needs one
+    nk = len(descs)
+    # 0-2 ABCs, each with one generated class registered as / recognised as its virtual subclass (and so all of
+    # that class's subclasses); at most one ABC per class (the order among several is C13's subject)
+    for j in range(rng.choice([0, 1, 1, 2])):
+        descs.append({'name': 'A%d' % j, 'abc': rng.choice(['register', 'hook']), 'bases': []})
+        free = [i for i in range(nk) if descs[i].get('abc_of') is None]
+        if free:
+            descs[rng.choice(free)]['abc_of'] = len(descs) - 1
+    if rng.random() < 0.35:                 # a builtin type and the collections.abc class it is a virtual subclass of
+        b = rng.choice(['set', 'frozenset', 'range'])
+        descs.append({'name': {'range': 'Sequence'}.get(b, 'Set'), 'abc': 'collections', 'bases': []})
+        descs.append({'name': b, 'builtin': b, 'bases': []})
+    while True:
+        ks = _mk_classes(descs)
+        abcs = [i for i, d in enumerate(descs) if d.get('abc')]
+        for i, (d, c) in enumerate(zip(descs, ks)):
+            d['mro'] = [x.__name__ for x in c.__mro__]
+            if d.get('abc'):
+                continue
+            inst = _instance(descs, ks, i)
+            d['dict'] = hasattr(inst, '__dict__')      # as Python has it: the built-in `keys` handler needs one
+            d['virt'] = [descs[a]['name'] for a in abcs if isinstance(inst, ks[a]) and ks[a] not in c.__mro__]
+        many = [i for i, d in enumerate(descs) if len(d.get('virt', [])) > 1]
+        if not many:
+            break
+        links = [i for i in range(nk) if descs[i].get('abc_of') is not None]
+        del descs[links[-1]]['abc_of']      # drop a link until no class has two virtual bases
     return descs
+
+
+def n_generated(classes):
+    return len([c for c in classes if not c.get('abc') and not c.get('builtin')])
 
 
 def star_entry(rng, classes):
@@ -338,7 +754,10 @@ def obj_entry(rng, classes):
 
 def dec_o(j, klasses, fns):
     if isinstance(j, dict) and 'inst' in j:
-        return klasses[j['inst']]()
+        k = klasses[j['inst']]
+        if k in BUILTIN6.values():
+            return {set: lambda: {1, 2}, frozenset: lambda: frozenset([1, 2]), range: lambda: range(1, 3)}[k]()
+        return k()
     if isinstance(j, dict) and 'l' in j:
         return [dec_o(x, klasses, fns) for x in j['l']]
     if isinstance(j, dict) and 'd' in j:
@@ -347,7 +766,9 @@ def dec_o(j, klasses, fns):
 
 
 def tagged(op, tag):
-    """a handler whose result shows that it ran"""
+    """a handler whose result shows that it ran (and that can be recognised when it is only looked up)"""
+    def items(o):
+        return list(o.items) if hasattr(o, 'items') and not isinstance(o, dict) else sorted(o)
     if op == 'get':
         def h(o, n):
             ic.LOG.append({'handler': tag, 'op': 'get', 'type': type(o).__name__})
@@ -356,11 +777,54 @@ def tagged(op, tag):
         def h(o):
             ic.LOG.append({'handler': tag, 'op': 'keys', 'type': type(o).__name__})
             return ['items', 'name']                  # not the order of the instance dict
-    else:
+    elif op == 'iterate':
         def h(o):
             ic.LOG.append({'handler': tag, 'op': 'iterate', 'type': type(o).__name__})
-            return iter([[tag, x] for x in list(o.items)])
+            return iter([[tag, x] for x in items(o)])
+    else:                                             # assign / delete: only ever looked up (Lookup6), never run
+        def h(o, *a):
+            ic.LOG.append({'handler': tag, 'op': op, 'type': type(o).__name__})
+            return o
+    h._c06_tag = tag
     return h
+
+
+class Lookup6:
+    """the smallest call that depends on the registrations (`lookup1` of the model): one handler lookup in the
+    registry of the call for the target; its outcome is the handler it got (the tag of a generated one,
+    'default' for a built-in one).  A custom spec (documented extension point); it changes nothing."""
+    def __init__(self, op):
+        self.op = op
+
+    def glomit(self, target, scope):
+        from glom.core import TargetRegistry, Path
+        h = scope[TargetRegistry].get_handler(self.op, target, path=scope[Path])
+        return getattr(h, '_c06_tag', 'default')
+
+    def __repr__(self):
+        return 'Lookup6(%r)' % self.op
+
+
+ALL_OPS = ['get', 'iterate', 'keys', 'assign', 'delete']
+# GATED (genuine defect reported to the lead, see the report / DESIGN §5 when committed): for an instance WITH a
+# __dict__ that is a virtual subclass of a registered ABC, the 'assign' / 'delete' lookup has two candidates outside
+# the MRO (_ObjStyleKeys and the ABC below _AbstractIterable); which one wins depends on the order in which
+# TargetRegistry.register_op() walks `known_types` — a *set* of type objects, i.e. on memory addresses: the outcome
+# differs between interpreter processes.  Switch on after `for t in known_types` iterates in a defined order.
+ABC_TIE_LOOKUPS = False
+
+
+def lookup_entry(rng, classes, force=None):
+    """a direct handler lookup for an instance of one of the classes (generated or builtin), for any op"""
+    cand = [i for i, c in enumerate(classes) if not c.get('abc')]
+    i, op = force if force else (rng.choice(cand), rng.choice(ALL_OPS))
+    c = classes[i]
+    if not ABC_TIE_LOOKUPS and c.get('virt') and c.get('dict') and op in ('assign', 'delete'):
+        op = rng.choice(['get', 'iterate', 'keys'])
+    if c.get('builtin') and op in ('assign', 'delete'):
+        # (set / frozenset / range are "unassignable" builtins: registering the type itself stores False for them)
+        op = rng.choice(['get', 'iterate', 'keys'])
+    return {'otarget': {'inst': i}, 'spec': {'k': 'lookup6', 'op': op}, 'lookups': [[c['name'], op]], 'lookup': True}
 
 
 def _py_pool():
@@ -389,29 +853,41 @@ PY_NAMES = ['arg_dict_call', 'arg_list', 'flatten', 'group_flatten', 'group_fold
 
 
 def related(rng, classes, i):
-    """a class related to class i: itself, one of its bases (any distance), or one of its subclasses"""
+    """a class related to class i: itself, one of its bases (any distance), one of its subclasses, or the ABC it
+    is a virtual subclass of"""
     name = classes[i]['name']
     ups = [k for k, c in enumerate(classes) if c['name'] in classes[i]['mro'][1:]]
     downs = [k for k, c in enumerate(classes) if name in c['mro'][1:]]
+    virt = [k for k, c in enumerate(classes) if c['name'] in classes[i].get('virt', [])]
     p = rng.random()
-    if ups and p < 0.6:
+    if virt and p < 0.45:
+        return rng.choice(virt)
+    if ups and p < 0.7:
         return rng.choice(ups)
-    if downs and p < 0.8:
+    if downs and p < 0.85:
         return rng.choice(downs)
     return i
 
 
-def reg_op(rng, classes, reg, cls, counter):
+def reg_op(rng, classes, reg, cls, counter, want=None):
+    """register(<class>, **handlers[, exact=True]); `want` = an op that gets a handler for sure"""
     kw = []
     p = rng.random()
     for op, lo, hi in (('get', 0.0, 0.7), ('iterate', 0.5, 0.9)):
         if lo <= p < hi:
             counter[0] += 1
             kw.append([op, 'h%d' % counter[0]])
-    if rng.random() < 0.3:
+    for op, pr in (('keys', 0.3), ('assign', 0.12), ('delete', 0.12)):
+        if rng.random() < pr:
+            counter[0] += 1
+            kw.append([op, 'h%d' % counter[0]])
+    if want and not any(x[0] == want for x in kw):
         counter[0] += 1
-        kw.append(['keys', 'h%d' % counter[0]])
-    return {'op': 'register', 'reg': reg, 'cls': classes[cls]['name'], 'kw': kw}
+        kw.append([want, 'h%d' % counter[0]])
+    out = {'op': 'register', 'reg': reg, 'cls': classes[cls]['name'], 'kw': kw}
+    if rng.random() < 0.25:
+        out['exact'] = True
+    return out
 
 
 def star_ops(classes, ty):
@@ -422,17 +898,31 @@ def star_ops(classes, ty):
 
 def generate(rng, tier, scale, **focus):
     n = (28 if tier == 'quick' else 300) * scale
+    combos = arith_combos() if tier != 'quick' else []
+    rng.shuffle(combos)
     for i in range(n):
         pl = pool(rng)
         g = Gen(rng, {'extra': []})
         classes = gen_classes(rng)
+        nk = n_generated(classes)
+        kcls = classes[:nk]
         n_regs = 1 + rng.randint(0, 2)                 # registry 0 = module-level, the others are Glommers
         holders = [holder_entry(rng, g) for _ in range(3)] + [binder_entry(rng) for _ in range(2)] + \
             [argshape_entry(rng) for _ in range(2)]
-        objs = [star_entry(rng, classes) if rng.random() < 0.45 else obj_entry(rng, classes) for _ in range(5)]
+        objs = []
+        for _ in range(7):
+            q = rng.random()
+            objs.append(star_entry(rng, kcls) if q < 0.3 else obj_entry(rng, kcls) if q < 0.6 else
+                        lookup_entry(rng, classes))
+        # T arithmetic on containers the target owns: random ones, and (thorough) a slice of the enumeration of
+        # every operator x left operand kind x right operand kind
+        ariths = [arith_entry(rng) for _ in range(6)]
+        per = -(-len(combos) // n) if combos else 0
+        ariths += [arith_entry(rng, c) for c in combos[i * per:(i + 1) * per]]
         names = PY_NAMES
-        entries = [{'target': t, 'spec': s} for t, s in pl] + [{'py': nm} for nm in names] + holders + objs
+        entries = [{'target': t, 'spec': s} for t, s in pl] + [{'py': nm} for nm in names] + holders + objs + ariths
         i_py, i_hold, i_obj = len(pl), len(pl) + len(names), len(pl) + len(names) + len(holders)
+        i_ar = i_obj + len(objs)
         counter = [0]
         ops = []
         overflow_at = rng.randrange(5, 40) if (i % 2 == 0) else None
@@ -441,26 +931,28 @@ def generate(rng, tier, scale, **focus):
             if overflow_at == k:
                 ops.append({'op': 'fill', 'prefix': 'ovf%d_' % i, 'n': 10050})
             p = rng.random()
-            if p < 0.3:
+            if p < 0.25:
                 ops.append({'op': 'from_text', 'text': rng.choice(TEXTS)})
             elif p < 0.82:
                 o = {'op': 'glom'}
                 q = rng.random()
-                if q < 0.35:
+                if q < 0.27:
                     o['idx'] = rng.randrange(len(pl))
                     if rng.random() < 0.3:
                         o['tidx'] = rng.randrange(len(pl))      # the same spec object on another entry's target
-                elif q < 0.55:
+                elif q < 0.42:
                     o['idx'] = i_py + rng.randrange(len(names))
-                elif q < 0.8:
+                elif q < 0.6:
                     o['idx'] = i_hold + rng.randrange(len(holders))
                     if entries[o['idx']].get('rows') and rng.random() < 0.6:
                         o['tidx'] = rng.choice([x for x in range(i_hold, i_obj) if entries[x].get('rows')])
                     elif rng.random() < 0.3:
                         o['tidx'] = rng.choice(list(range(len(pl))) + list(range(i_hold, i_obj)))
-                else:
+                elif q < 0.8:
                     o['idx'] = i_obj + rng.randrange(len(objs))
-                if (q >= 0.8 or rng.random() < 0.2) and n_regs > 1:
+                else:
+                    o['idx'] = i_ar + rng.randrange(6)
+                if (0.6 <= q < 0.8 or rng.random() < 0.2) and n_regs > 1:
                     o['reg'] = rng.randrange(n_regs)
                 ops.append(o)
             elif p < 0.9:
@@ -469,18 +961,23 @@ def generate(rng, tier, scale, **focus):
                 ops.append({'op': 'register', 'reg': rng.randrange(n_regs)})     # an unrelated fresh class
             else:
                 ops.append(reg_op(rng, classes, rng.randrange(n_regs), rng.randrange(len(classes)), counter))
-        # type-directed: a lookup, a registration of a related type in the same registry, the same lookup
-        for _ in range(rng.randint(0, 3)):
+        # every arith entry is evaluated, the enumerated ones twice (the second evaluation sees what the first left)
+        for x in range(i_ar, len(entries)):
+            for _ in range(1 if x < i_ar + 6 else 2):
+                ops.insert(rng.randrange(len(ops) + 1), {'op': 'glom', 'idx': x})
+        # type-directed: a lookup, a registration of a related type (itself, a base, a subclass, the ABC it is a
+        # virtual subclass of; exact or not) in the same registry, the same lookup — for every op
+        for _ in range(rng.randint(1, 4)):
             e = rng.randrange(len(objs))
             # (a wildcard entry: one of the lookups `_extend_children` makes for one of the visited types)
             ty, opname = rng.choice(objs[e].get('lookups') or
                                     [[t, o] for t in objs[e]['star'] for o in star_ops(classes, t)])
             ci = next(k for k, c in enumerate(classes) if c['name'] == ty)
             reg = rng.randrange(n_regs)
-            r = reg_op(rng, classes, reg, related(rng, classes, ci), counter)
-            if rng.random() < 0.7 and not any(x[0] == opname for x in r['kw']):
-                counter[0] += 1
-                r['kw'].append([opname, 'h%d' % counter[0]])
+            r = reg_op(rng, classes, reg, related(rng, classes, ci), counter,
+                       want=opname if rng.random() < 0.8 else None)
+            if r.get('exact') and r['cls'] != ty and rng.random() < 0.5:
+                r['cls'] = ty                          # exact registrations mostly of the looked-up type itself
             pos = sorted(rng.randrange(len(ops) + 1) for _ in range(3))
             call = {'op': 'glom', 'idx': i_obj + e}
             if reg:
@@ -517,6 +1014,8 @@ def snapshot(obj, seen=None):
             return ('ref', seen[id(obj)])
         seen[id(obj)] = len(seen)
         return (type(obj).__name__, id(obj), [(snapshot(k, seen), snapshot(v, seen)) for k, v in obj.items()])
+    if isinstance(obj, bytearray):
+        return ('bytearray', id(obj), bytes(obj))
     return repr(obj)
 
 
@@ -562,6 +1061,8 @@ def deep_snapshot(obj, seen=None):
         items = [(deep_snapshot(k, seen), deep_snapshot(v, seen)) for k, v in list(obj.items())]
         extra = deep_snapshot(_attrs(obj), seen) if type(obj) not in (dict, OrderedDict) else None
         return (tn, id(obj), items, extra)
+    if isinstance(obj, bytearray):
+        return (tn, id(obj), bytes(obj))
     if isinstance(obj, ChainMap):
         return (tn, id(obj), [deep_snapshot(m, seen) for m in obj.maps])
     if isinstance(obj, ic.Fn):
@@ -630,7 +1131,7 @@ def children_mode(ty, enc):
     return '?'
 
 
-def outcome(target, spec, star, call=None, scope=None, path=None):
+def outcome(target, spec, star, call=None, scope=None, path=None, encode=None, keep=None):
     import glom
     import glom.core as gc
     gc.PATH_STAR = star
@@ -644,10 +1145,15 @@ def outcome(target, spec, star, call=None, scope=None, path=None):
         with warnings.catch_warnings():
             warnings.simplefilter('ignore')
             res = (call or glom.glom)(target, spec, **kw)
-        try:
-            out = {'ok': ic.enc(res)}
-        except ValueError:
-            out = {'ok': enc_o(res)}
+        if keep is not None:
+            keep.append(res)
+        if encode is not None:
+            out = {'ok': encode(res)}
+        else:
+            try:
+                out = {'ok': ic.enc(res)}
+            except ValueError:
+                out = {'ok': enc_o(res)}
     except Exception as e:
         out = {'err': ic.exc_name(e)}
     out['log'] = list(ic.LOG)
@@ -665,6 +1171,9 @@ def fresh_outcome(args):
     repo, tj, sj, star = args
     sys.path.insert(0, repo)
     from harness import interp_common as ic2
+    if tj is None:                        # an arith entry (sj)
+        t, s, _ = build_arith(sj)
+        return outcome(t, s, star, encode=tree6)
     fns = {}
     return outcome(ic2.dec(tj, fns), ic2.build(sj, fns), star)
 
@@ -723,11 +1232,17 @@ def run_impl(case):
     glommers = [glom.Glommer() for _ in range(n_regs - 1)]
     reg_hist = [[] for _ in range(n_regs)]        # per registry: (class, handlers) in registration order
 
+    arith_objs = {}
+
     def build_entry(entry):
         """-> (target, spec, caller's scope mapping or None, caller's path list or None)"""
         if 'py' in entry:
             tb, sb, _ = _py_pool()[entry['py']]
             return (tb(), sb(), None, None)
+        if 'arith' in entry:
+            t, sp, aobjs = build_arith(entry)
+            arith_objs[id(sp)] = aobjs           # (the spec object is kept alive by the caller)
+            return (t, sp, None, None)
         fns = {}
         t = dec_o(entry['otarget'], klasses, fns) if 'otarget' in entry else ic.dec(entry['target'], fns)
         sc = {n: ic.dec(v, fns) for n, v in entry['scope']} if entry.get('scope') else None
@@ -755,6 +1270,8 @@ def run_impl(case):
                 if 'cls' in op:
                     cls = by_name[op['cls']]
                     kw = {opn: tagged(opn, tag) for opn, tag in op.get('kw', [])}
+                    if op.get('exact'):
+                        kw['exact'] = True
                 else:
                     cls = type('R%d' % sum(len(h) for h in reg_hist), (object,), {})
                     kw = {'get': getattr}
@@ -774,11 +1291,25 @@ def run_impl(case):
                 if r != 0:
                     sc = None                        # Glommer.glom passes its own scope
                 keys_before = {b: set(Path._CACHE[b]) for b in (True, False)}
+                encf = tree6 if 'arith' in entry else None
+                if 'arith' in entry:
+                    # every object of the case (the target's containers, the containers the spec holds) by
+                    # address = identity, as they are right now
+                    enc6 = Enc6().preload(arith_objs[id(s)])
+                    heap_before = enc6.heap()
                 before = (snapshot(t), repr(s), snapshot(s) if isinstance(s, (list, tuple, dict)) else None,
                           deep_snapshot(t))
                 g_before = deep_snapshot(s)
                 sc_before = [deep_snapshot(sc), deep_snapshot(cp)]
-                oc = outcome(t, s, gc.PATH_STAR, call, sc, cp)
+                resbox = []
+                oc = outcome(t, s, gc.PATH_STAR, call, sc, cp, encode=encf, keep=resbox)
+                if 'arith' in entry:
+                    o['arith'] = {'heap': heap_before, 'target': entry['arith']['target'], 'spec': entry['arith']['spec'],
+                                  'impl_heap_after': enc6.heap(),
+                                  'impl_out': {'ok': enc6.graph(resbox[0])} if resbox else {'err': oc.get('err')},
+                                  # (identity of a *mutable* object: an immutable one may be shared freely)
+                                  'impl_result_old': bool(resbox) and type(resbox[0]) not in (tuple, frozenset)
+                                  and enc6.known(resbox[0]) is not None}
                 after = (snapshot(t), repr(s), snapshot(s) if isinstance(s, (list, tuple, dict)) else None,
                          deep_snapshot(t))
                 o['inputs_unchanged'] = (before == after)
@@ -791,7 +1322,7 @@ def run_impl(case):
                 # built, structurally identical objects evaluated right now
                 t2 = build_entry(case['pool'][op.get('tidx', op['idx'])])[0]
                 _, s2, sc2, cp2 = build_entry(entry)
-                oc2 = outcome(t2, s2, gc.PATH_STAR, call, sc2 if r == 0 else None, cp2)
+                oc2 = outcome(t2, s2, gc.PATH_STAR, call, sc2 if r == 0 else None, cp2, encode=encf)
                 o['same_as_rebuilt'] = (strip_fn_names(oc2) == strip_fn_names(oc))
                 if 'py' in entry and 'tidx' not in op:
                     # a fixed (target, spec) pair: the result is known whatever came before
@@ -808,11 +1339,18 @@ def run_impl(case):
                         fg.register(cls, **kw)
                     t3 = build_entry(case['pool'][op.get('tidx', op['idx'])])[0]
                     s3 = build_entry(entry)[1]
-                    oc3 = outcome(t3, s3, gc.PATH_STAR, fg.glom)
+                    oc3 = outcome(t3, s3, gc.PATH_STAR, fg.glom, encode=encf)
                     o['same_as_fresh_registry'] = (strip_fn_names(oc3) == strip_fn_names(oc))
                     if not o['same_as_fresh_registry']:
                         o['here'], o['fresh_registry'] = oc, oc3
-                if 'lookups' in entry and 'tidx' not in op and 'ok' in oc:
+                if entry.get('lookup') and 'tidx' not in op:
+                    # a direct lookup: the outcome is the handler (UnregisteredTarget: there is none)
+                    (ty, opn), = entry['lookups']
+                    if 'ok' in oc:
+                        o['impl_lookups'] = [[ty, opn, oc['ok'].get('s', '?')]]
+                    elif oc.get('err') == 'UnregisteredTarget':
+                        o['impl_lookups'] = [[ty, opn, '<none>']]
+                elif 'lookups' in entry and 'tidx' not in op and 'ok' in oc:
                     ran = {(l['type'], l['op']): l['handler'] for l in oc['log'] if 'handler' in l}
                     o['impl_lookups'] = [[ty, opn, ran.get((ty, opn), 'default')] for ty, opn in entry['lookups']]
                 if 'star' in entry and 'tidx' not in op and 'ok' in oc and (gc.PATH_STAR or not entry['star_text']):
@@ -826,6 +1364,10 @@ def run_impl(case):
                     budget -= 1
                     fresh_jobs.append((len(ops_out), oc,
                                        (os.environ.get('GLOM_REPO', '/repo'), entry['target'], entry['spec'], gc.PATH_STAR)))
+                elif budget > 0 and not reg_hist[0] and r == 0 and 'arith' in entry:
+                    budget -= 1
+                    fresh_jobs.append((len(ops_out), oc,
+                                       (os.environ.get('GLOM_REPO', '/repo'), None, {'arith': entry['arith']}, gc.PATH_STAR)))
             if op['op'] != 'register' and op['op'] != 'set_star':
                 o['impl_sizes'] = [len(Path._CACHE[True]), len(Path._CACHE[False])]
             ops_out.append(o)
@@ -862,7 +1404,7 @@ def _prune(tree, cls):
 
 
 OBSERVED = ('same_as_expected', 'same_as_first', 'same_as_fresh', 'same_as_rebuilt', 'inputs_unchanged', 'fresh', 'here',
-            'same_as_fresh_registry', 'fresh_registry', 'spec_graph_unchanged', 'scope_unchanged', 'vars')
+            'same_as_fresh_registry', 'fresh_registry', 'spec_graph_unchanged', 'scope_unchanged', 'vars', 'arith')
 
 
 def key(case):
@@ -886,7 +1428,7 @@ def nontrivial(case, verdict):
 
 def shrink(case):
     base = {k: v for k, v in case.items() if not k.startswith('impl')}
-    ops = [{k: v for k, v in o.items() if k in ('op', 'text', 'prefix', 'n', 'v', 'idx', 'tidx', 'reg', 'cls', 'kw')}
+    ops = [{k: v for k, v in o.items() if k in ('op', 'text', 'prefix', 'n', 'v', 'idx', 'tidx', 'reg', 'cls', 'kw', 'exact')}
            for o in case['ops']]
     n = len(ops)
     step = max(n // 2, 1)
